@@ -163,6 +163,7 @@ Out run_hybrid(const Req &r) {
         ptree p = c13::base_params(r, true, true, true);
         S5 S(At, p);
         o.levels = levels_of(S); o.opdiff = opdiff(S.system_matrix(), *r.A);
+        { std::vector<double> z(r.f.size(), 0.0); S.precond().apply(r.f, z); o.pact = z; }
         o.x = r.x0;
         if (r.form == 0) std::tie(o.iters, o.resid) = S(r.f, o.x); else std::tie(o.iters, o.resid) = S(At, r.f, o.x);
     });
